@@ -57,7 +57,16 @@ func kindsFor(n int, thorough bool) []kind {
 	return ks
 }
 
-func name(i int) string { return fmt.Sprintf("d/e%d", i) }
+// base is the file name of entry i. Entry 1 carries a backslash: an ordinary file-name character
+// in an image, which neither entry names nor link targets may reinterpret as a separator.
+func base(i int) string {
+	if i == 1 {
+		return `e\1`
+	}
+	return fmt.Sprintf("e%d", i)
+}
+
+func name(i int) string { return "d/" + base(i) }
 
 func build(g []kind) [][]byte {
 	l0 := []imgkit.Entry{imgkit.Dir("d"), imgkit.File("x", "outside-target"), imgkit.Dir("root"), imgkit.File("root/x", "outside-target")} // "x", "root/x": what a clamped "../../x", "../../root/x" would hit
@@ -72,10 +81,10 @@ func build(g []kind) [][]byte {
 			l0 = append(l0, imgkit.File(name(i), "content-of-"+name(i)))
 			l1 = append(l1, imgkit.Whiteout(name(i)))
 		case "via":
-			l0 = append(l0, imgkit.Sym(name(i), fmt.Sprintf("e%d/child", k.To)))
+			l0 = append(l0, imgkit.Sym(name(i), base(k.To)+"/child"))
 		case "relink":
-			l0 = append(l0, imgkit.Sym(name(i), fmt.Sprintf("e%d", k.To)))
-			l1 = append(l1, imgkit.Sym(name(i), fmt.Sprintf("e%d", (k.To+1)%len(g))))
+			l0 = append(l0, imgkit.Sym(name(i), base(k.To)))
+			l1 = append(l1, imgkit.Sym(name(i), base((k.To+1)%len(g))))
 		case "outside":
 			// a target that climbs above the image root, spelled relative or absolute; if it were
 			// clamped to the root it would hit the file "x"
@@ -88,7 +97,7 @@ func build(g []kind) [][]byte {
 			}
 			l0 = append(l0, imgkit.Sym(name(i), t))
 		case "link":
-			t := fmt.Sprintf("e%d", k.To)
+			t := base(k.To)
 			switch k.Spell {
 			case "abs":
 				t = "/d/" + t
@@ -413,5 +422,5 @@ func main() {
 	}
 	os.RemoveAll(base)
 	r.Set("bound", map[string]any{"entries_completed": completed, "depths": depths})
-	r.Finish(fmt.Sprintf("every kind assignment to n<=%d entries (file, dir, missing, deleted by layer 1, outside-root symlink spelled relative (../../x, ../../root/x) and absolute (/d/../../x), symlink whose target runs through another entry (e<j>/child; n<=3, thorough all n), symlink to each entry spelled relative/absolute%s, symlink re-pointed by layer 1 from entry j to j+1 (n<=3; thorough all n)) x MaxSymlinkDepth 0..6 x every entry x {Stat, Open+Read, ReadDir} on all three views (layer-0 view where deleted entries still exist, intermediate view with whiteout nodes, final view) of the real image vs the per-view reference resolver, views queried 0,1,2 and, on a fresh load at depth 6, 2,1,0; each query under a 60 s watchdog; non-trivial = queries whose chain has >=1 hop", maxN, map[bool]string{true: "/with ..", false: ""}[r.Thorough()]), completed >= maxN)
+	r.Finish(fmt.Sprintf("every kind assignment to n<=%d entries (named d/e0, d/e\\1 (a backslash in the name), d/e2...; file, dir, missing, deleted by layer 1, outside-root symlink spelled relative (../../x, ../../root/x) and absolute (/d/../../x), symlink whose target runs through another entry (e<j>/child; n<=3, thorough all n), symlink to each entry spelled relative/absolute%s, symlink re-pointed by layer 1 from entry j to j+1 (n<=3; thorough all n)) x MaxSymlinkDepth 0..6 x every entry x {Stat, Open+Read, ReadDir} on all three views (layer-0 view where deleted entries still exist, intermediate view with whiteout nodes, final view) of the real image vs the per-view reference resolver, views queried 0,1,2 and, on a fresh load at depth 6, 2,1,0; each query under a 60 s watchdog; non-trivial = queries whose chain has >=1 hop", maxN, map[bool]string{true: "/with ..", false: ""}[r.Thorough()]), completed >= maxN)
 }
